@@ -114,6 +114,21 @@ def draw_text(rng):
     else:
         files = corpus.test_files()
         text = rng.choice(files) if files else corpus.MEDIUM[0]
+    if rng.random() < 0.012:
+        # large: more than one io.DEFAULT_BUFFER_SIZE of text, dense with
+        # tokens that span line breaks
+        script = rng.choice(['ascii', 'l1', 'cyr', 'cjk'])
+        target = rng.choice([8300, 8300, 9000, 12000])
+        parts = []
+        size = 0
+        while size < target:
+            p = corpus.gen_sql(rng, script, backslash=False, nstmts=3,
+                               multiline=0.9)
+            if not p.rstrip().endswith(';'):
+                p = p.rstrip() + ';'
+            parts.append(p + '\n')
+            size += len(p) + 1
+        text = ''.join(parts)
     if rng.random() < 0.04:
         text = rng.choice(['', '\n', ' ', ';', '-- only a comment'])
     if rng.random() < 0.3 and text.endswith('\n'):
@@ -199,7 +214,10 @@ def gen(seed, idx, tier, ctx):
     items = []
     n_items = rng.choice([3, 4, 5, 6])
     kinds = ['bytes_enc', 'bytes_utf8', 'bytes_fallback', 'sio', 'stream',
-             'stream', 'cli', 'cli', 'cli', 'cli_invalid']
+             'stream', 'tstream', 'cli', 'cli', 'cli', 'cli_invalid']
+    if len(text) > 8000:
+        n_items = rng.choice([2, 3])
+        kinds = ['stream', 'tstream', 'sio', 'cli', 'bytes_enc']
     for _ in range(n_items):
         kind = rng.choice(kinds)
         api = rng.choice(['parse', 'parsestream', 'split', 'format',
@@ -207,6 +225,10 @@ def gen(seed, idx, tier, ctx):
         opts = None
         if api == 'format':
             opts = corpus.draw_opts(rng)
+            if len(text) > 8000:
+                # layout filters are super-linear on long scripts
+                opts = rng.choice([{}, {'keyword_case': 'upper'},
+                                   {'identifier_case': 'upper'}])
         elif api == 'split' and rng.random() < 0.2:
             opts = {'strip_semicolon': True}
         if kind == 'bytes_enc':
@@ -239,8 +261,28 @@ def gen(seed, idx, tier, ctx):
                   'rplan': draw_read_plan(rng, data, inside,
                                           faulty and rng.random() < 0.6)}
             items.append(it)
+        elif kind == 'tstream':
+            n = len(text)
+            plan = {}
+            if n > 1:
+                mode = rng.random()
+                if mode < 0.3:
+                    plan['cuts'] = list(range(1, n, rng.choice([1, 5, 64])))
+                elif mode < 0.8:
+                    plan['cuts'] = sorted(set(
+                        rng.randrange(1, n)
+                        for _ in range(rng.choice([1, 2, 5, 20]))))
+            if faulty and n and rng.random() < 0.6:
+                plan['fail_at'] = rng.randrange(0, n)
+            items.append({'k': 'api', 'form': 'tstream', 'api': api,
+                          'opts': opts,
+                          'decl': rng.choice([None, None, 'ascii']),
+                          'rplan': plan})
         elif kind == 'cli':
             argv, copts = draw_cli_flags(rng)
+            if len(text) > 8000:
+                argv, copts = rng.choice([
+                    ([], {}), (['-k', 'upper'], {'keyword_case': 'upper'})])
             src = rng.choice(['file', 'stdin'])
             dst = rng.choice(['stdout', 'file'])
             it = {'k': 'cli', 'in': src, 'out': dst, 'flags': argv,
@@ -322,6 +364,9 @@ def run_api_item(item, text, ref, stat, viols, ii):
         obj = iofake.make_stream(data, item['rplan'], chan, item['enc'],
                                  item.get('buf'), item.get('chunk'))
         enc_arg = item.get('decl')
+    elif form == 'tstream':
+        obj = iofake.SimTextStream(text, item['rplan'], chan)
+        enc_arg = item.get('decl')
     else:
         raise ValueError(form)
     out, _ = _api_call(item, obj, enc_arg)
@@ -332,7 +377,7 @@ def run_api_item(item, text, ref, stat, viols, ii):
     errs = dict(chan.fired)
     nontrivial = any(ord(c) > 127 for c in text) or chan.events >= 2 \
         or bool(errs)
-    if form == 'stream':
+    if form in ('stream', 'tstream'):
         sig += '|cuts%s|%s' % (_cutclass(item['rplan']),
                                '+'.join(sorted(errs)) or 'nofault')
     if canon.same(out, ref):
@@ -370,6 +415,8 @@ def _form_desc(item):
                'as Latin-1' % item['enc']
     if f == 'sio':
         return 'io.StringIO, encoding=%r' % item.get('enc')
+    if f == 'tstream':
+        return 'hand-written text stream (short reads allowed)'
     return 'text stream over a simulated device, %s' % item['enc']
 
 
@@ -562,6 +609,8 @@ def run(spec, refs):
             sigs_nt.add(sig)
         digest = (digest * 1000003 + chan.digest) & 0xFFFFFFFFFFFFFFFF
     stat('items', len(spec['items']))
+    if len(text) > 8192:
+        stat('large_texts')
     stat('pop_' + ('fault' if spec.get('faulty') else 'clean'))
     return {'status': 'violation' if viols else 'ok', 'viol': viols,
             'stats': stats, 'sigs': sorted(sigs), 'sigs_nt': sorted(sigs_nt),
@@ -668,7 +717,8 @@ def _fix_plans(c):
         for pk in ('rplan',):
             p = it.get(pk)
             if p:
-                n = len(c['text'].encode(it['enc']))
+                n = len(c['text']) if it.get('form') == 'tstream' else \
+                    len(c['text'].encode(it['enc']))
                 if p.get('cuts'):
                     p['cuts'] = [x for x in p['cuts'] if x < n]
                 if p.get('fail_at') is not None and n:
@@ -776,7 +826,7 @@ def extra_phase(tier, seed, ws, agg, run_spec_on):
     return out
 
 
-TIERS = {'quick': 24000, 'thorough': 700000}
+TIERS = {'quick': 20000, 'thorough': 700000}
 WALL_CAP = {'quick': 240, 'thorough': 3300}
 DET_SAMPLE = {'quick': 24, 'thorough': 100}
 
@@ -806,6 +856,7 @@ PROBES = ['probe_multibyte_char_split_across_reads', 'probe_short_read',
           'fault_close_error', 'fault_open_read_error_ENOENT',
           'fault_open_read_error_EACCES', 'fault_open_write_error_EACCES',
           'fallback_with_backslash', 'form_bytes_fallback', 'form_stream',
+          'form_tstream', 'large_texts',
           'form_cli_file_stdout', 'form_cli_stdin_stdout',
           'form_cli_file_file', 'form_cli_stdin_file', 'cli_invalid_items',
           'faulted_item_failed_visibly']
